@@ -86,11 +86,27 @@ InitP(pre) ==
 
 Init == InitP(Preexisting)
 
+(* history helpers *)
+Idx(h, P(_)) == {i \in DOMAIN h : P(h[i])}
+Max(S) == CHOOSE x \in S : \A y \in S : y <= x
+
+IsCallStart(e)   == e.k = "start"
+IsCallEnd(e)     == e.k = "end"
+IsDeployIssue(e) == e.k = "issue" /\ e.c = "Deploy"
+IsDeployStart(e) == e.k = "start" /\ e.c = "Deploy"
+IsDeployAny(e)   == e.c = "Deploy" /\ e.k \in {"start", "end"}
+IsTdStart(e)     == e.k = "start" /\ e.c = "Teardown"
+IsTdReq(e)       == e.k = "tdreq"
+IsClose(e)       == e.k = "close"
+IsShutdown(e)    == e.k = "shutdown"
+IsRecv(e)        == e.k = "recv"
+IsDeployFail(e)  == e.k = "end" /\ e.c = "Deploy" /\ e.r = "err"
+
 ----------------------------------------------------------------------------
 (* guards of the internal (non-environment) steps *)
 
 G_SvcShutdown  == svc = "running" /\ shut
-G_SvcRoute     == svc = "running" /\ ~shut /\ bus # <<>> /\ inbox.t = "none"
+G_SvcRoute     == svc = "running" /\ bus # <<>> /\ inbox.t = "none"
 G_MgrInbox     == mgr = "loop" /\ inbox.t # "none"
 G_MgrHostnames == mgr = "loop" /\ inbox.t = "none" /\ hn \in {"ok", "failed"} /\ ~hnc
 G_MgrShutdown  == mgr = "loop" /\ inbox.t = "none" /\ svc # "running"
@@ -248,11 +264,20 @@ MgrExitWait ==
 ----------------------------------------------------------------------------
 (* the op goroutine (dm.do): enters the scripted cluster client *)
 
-OpBegin ==
+\* doDeploy reads dm.mgroup inside the op goroutine, unsynchronised with the loop that assigns it on every update:
+\* the manifest handed to Deploy is the one held at issue time or any one the manager has been given since.
+\* (Manifest ids are issued in increasing order by the environment.)  Under the forced schedule there is no race.
+IssuedM == LET I == Idx(hist, IsDeployIssue) IN IF I = {} THEN mg ELSE hist[Max(I)].m
+DeployArgs == IF Atomic THEN {mg} ELSE IssuedM..mg
+
+OpBeginM(m) ==
   /\ G_OpBegin
   /\ oph' = "running"
-  /\ hist' = Append(hist, IF op = "deploy" THEN H("start", "Deploy", mg, "-") ELSE H("start", "Teardown", 0, "-"))
+  /\ IF op = "deploy" THEN m \in DeployArgs ELSE m = 0
+  /\ hist' = Append(hist, IF op = "deploy" THEN H("start", "Deploy", m, "-") ELSE H("start", "Teardown", 0, "-"))
   /\ UNCHANGED <<svc, shut, bus, inbox, resv, mgr, state, mg, hn, hnc, hnHeld, hnRel, op, att, script>>
+
+OpBegin == \E m \in 0..MaxManifests : OpBeginM(m)
 
 Internal ==
   \/ SvcShutdown \/ SvcRoute \/ SvcCollect \/ SvcDrain \/ SvcStopped
@@ -263,15 +288,18 @@ Internal ==
 (* environment stimuli *)
 
 EnvOK == Len(script) < MaxStimuli /\ (Atomic => Stable)
+\* events may be published at any time; under the forced schedule nothing is published once shutdown was requested
+\* (the service would never consume it)
+PubOK == Atomic => ~shut
 
 PubManifest ==
-  /\ EnvOK /\ ~shut /\ NStim("m") < MaxManifests
+  /\ EnvOK /\ PubOK /\ NStim("m") < MaxManifests
   /\ bus' = Append(bus, Msg("manifest", NStim("m") + 1))
   /\ script' = Append(script, "m")
   /\ UNCHANGED <<svc, shut, inbox, resv, mgr, state, mg, hn, hnc, hnHeld, hnRel, op, oph, att, hist>>
 
 PubClosed ==
-  /\ EnvOK /\ ~shut /\ NStim("c") < MaxClosed
+  /\ EnvOK /\ PubOK /\ NStim("c") < MaxClosed
   /\ bus' = Append(bus, Msg("closed", 0))
   /\ script' = Append(script, "c")
   /\ UNCHANGED <<svc, shut, inbox, resv, mgr, state, mg, hn, hnc, hnHeld, hnRel, op, oph, att, hist>>
@@ -316,21 +344,6 @@ Spec == Init /\ [][Next]_vars
 ----------------------------------------------------------------------------
 (* C14, over the history and the release observation only *)
 
-Idx(h, P(_)) == {i \in DOMAIN h : P(h[i])}
-Max(S) == CHOOSE x \in S : \A y \in S : y <= x
-
-IsCallStart(e)   == e.k = "start"
-IsCallEnd(e)     == e.k = "end"
-IsDeployIssue(e) == e.k = "issue" /\ e.c = "Deploy"
-IsDeployStart(e) == e.k = "start" /\ e.c = "Deploy"
-IsDeployAny(e)   == e.c = "Deploy" /\ e.k \in {"start", "end"}
-IsTdStart(e)     == e.k = "start" /\ e.c = "Teardown"
-IsTdReq(e)       == e.k = "tdreq"
-IsClose(e)       == e.k = "close"
-IsShutdown(e)    == e.k = "shutdown"
-IsRecv(e)        == e.k = "recv"
-IsDeployFail(e)  == e.k = "end" /\ e.c = "Deploy" /\ e.r = "err"
-
 \* (a) never two cluster operations for the lease at the same time
 NoConcurrentOps(h) ==
   \A n \in 0..Len(h) :
@@ -370,7 +383,9 @@ LastDeployUsesLatestManifest(h) ==
   (~Closed(h) /\ ~FailedDeploy(h) /\ ~ShutdownReq(h) /\ Deployed(h) /\ Idx(h, IsRecv) # {}) =>
     h[Max(Idx(h, IsDeployStart))].m = h[Max(Idx(h, IsRecv))].m
 
-Safety == NoConcurrentOps(hist) /\ NoDeployAfterTeardownRequested(hist)
+\* as a state invariant the prefixes have been checked in the predecessor states already
+NoConcurrentOpsNow(h) == Cardinality(Idx(h, IsCallStart)) - Cardinality(Idx(h, IsCallEnd)) \in {0, 1}
+Safety == NoConcurrentOpsNow(hist) /\ NoDeployAfterTeardownRequested(hist)
 AtQuiescence ==
   Quiescent => /\ ClosedThenTornDownAndReleased(hist, resv, hnHeld)
                /\ LastDeployUsesLatestManifest(hist)
